@@ -44,6 +44,9 @@ def run(chk, repo):
     chk.attempt(naming, chk, OpenPath(repo))
     from .c07 import serialised_last
     chk.attempt(serialised_last, chk, OpenPath(repo), "C07-G6")
+    from .c10 import w2_defaults
+    chk.rule("C10-W2", "the tree of one open holds only this product's groups: no mutable default on the open path is filled across calls", 0)
+    chk.attempt(w2_defaults, chk, OpenPath(repo))
     chk.attempt(a8, chk, repo)
     chk.attempt(a9, chk, repo)
     chk.count("functions", 12)
